@@ -135,10 +135,13 @@ class Escape:
             # s[0] / s[-1] on a string captured by a regex group (may be empty): IndexError unless guarded
             nm = node.value.id
             captured = False
+            gd_names = {t.id for a in ast.walk(f.node) if isinstance(a, ast.Assign) and method_call(a.value, 'groupdict')
+                        for t in a.targets if isinstance(t, ast.Name)}
             for a in ast.walk(f.node):
                 if isinstance(a, ast.Assign) and any(isinstance(t, ast.Name) and t.id == nm for t in a.targets):
                     v = a.value
-                    if (isinstance(v, ast.Subscript) and 'groupdict' in text(v.value)) or (isinstance(v, ast.Call) and isinstance(v.func, ast.Attribute) and v.func.attr == 'group'):
+                    if (isinstance(v, ast.Subscript) and ('groupdict' in text(v.value) or (isinstance(v.value, ast.Name) and v.value.id in gd_names))) \
+                            or (isinstance(v, ast.Call) and isinstance(v.func, ast.Attribute) and v.func.attr == 'group'):
                         captured = True
             if captured:
                 out.append(('IndexError', 'index of a regex capture'))
